@@ -20,12 +20,14 @@ RULE = ("scenario = (tuple of job times in insertion order, max_concurrent, wher
         "release order) within the deviation bound is executed on the real dispatcher. Distinct = distinct "
         "(scenario, invocation trace); non-trivial = at least one job and one event ran.")
 ASSUMPTIONS = [
-    "job times and event times on a 5-second grid 5..45 with events at 10/20/30; at most 3 (quick) / 4 (thorough) jobs",
+    "job times on a 5-second grid 5..45 plus sub-second times sharing a second (25.2/25.8, 35.2/35.8), events at 10/20/30; at most 3 (quick) / 4 (thorough) jobs",
     "CPython FIFO ready-queue order is kept; only suspension patterns and external completion order are permuted",
     "jobs scheduled during the final drain (after the last event was handled) are outside the property (CHANGELOG 1.6.1)",
 ]
 EVENTS = (10, 20, 30)
 TIMES = (5, 10, 15, 25, 30, 35, 40, 45)
+# sub-second times sharing a UTC second, between events and beyond the last one
+SUBSEC = (25.2, 25.8, 35.8, 35.2)
 BOUNDS = {"quick": dict(max_jobs=3, deviation_bound=1), "thorough": dict(max_jobs=4, deviation_bound=2)}
 EXPLANATION = ("implementation-level model checking: every explored trace is an execution of the real dispatcher; "
                "traces_validated_against_impl counts executions re-run from their recorded choices with identical "
@@ -36,7 +38,7 @@ def scenarios(tier, seed):
     out = []
     max_jobs = BOUNDS[tier]["max_jobs"]
     for size in range(1, max_jobs + 1):
-        times = TIMES if size <= 3 else (5, 10, 25, 30, 35, 40, 45)
+        times = TIMES + SUBSEC if size <= 3 else (5, 10, 25, 30, 35, 40, 45, 25.2, 35.2)
         for jt in itertools.product(times, repeat=size):
             modes = [("up",) * size, ("h10",) + ("up",) * (size - 1), ("h30",) + ("up",) * (size - 1)]
             if size >= 2:
